@@ -12,10 +12,15 @@ Sections 7-9 (round 3) are about M-Cross (`DefconModel/Cross.lean`): M-Parents c
 notification wiring - a component observes its layer and the glyph object filed under its base glyph name, an
 image observes its layer and the font's image set (after repo_fixes/C11-r3-1) - and with a delivery function
 that follows the complete table.  Helper lemmas are in `Lemmas/Cross.lean`, `Reach` / `Mentioned` / `Outside` in
-`Spec/Cross.lean`.
+`Spec/Cross.lean`.  Section 11 is about the STORED wiring (`Cross.OState`): registrations that are kept and changed
+only at the events at which the code changes them (layer announcements heard by the six callbacks of
+component.py, begin / end of a component's own observation), proved equal to what the tree says in every
+reachable state (`Lemmas/CrossFrame.lean`: which operation changes what a layer files under which name;
+`Lemmas/CrossSync.lean`: the invariant).
 -/
 import DefconModel.Lemmas.Parents
 import DefconModel.Lemmas.Cross
+import DefconModel.Lemmas.CrossSync
 
 set_option linter.unusedSimpArgs false
 set_option linter.unusedVariables false
@@ -897,5 +902,77 @@ example : crossTable (xstep xlayer (.base (.delLayer 0 "back"))).1 = [] ∧
     ¬ Mentioned (xstep xlayer (.base (.delLayer 0 "back"))).1 5 ∧ ¬ Mentioned (xstep xlayer (.base (.delLayer 0 "back"))).1 7 ∧
     ¬ Mentioned (xstep xlayer (.base (.delLayer 0 "back"))).1 8 := by
   unfold Mentioned; decide
+
+/-! ## 11. The wiring is kept, not computed: registrations established and dropped at the code's events -/
+
+/-- The layer announcements are complete.  `announced` lists what an operation tells the components of a layer —
+`Layer.GlyphAdded` (newGlyph, insertGlyph), `Layer.GlyphWillBeDeleted` / `GlyphDeleted` (`del layer[name]`),
+`Layer.GlyphNameChanged` with the new name and `Glyph.NameChanged` of the renamed object with the old one
+(`glyph.name = …`) —: for every (layer, glyph name) pair that is NOT announced, a layer that belongs to a font files
+the same glyph object under that name after the operation as before — whatever the operation (all 21 of
+M-Parents, `Component()`, `baseGlyph =`, loading, decomposing) and its arguments. -/
+theorem announcements_complete (s : State) (w : Wired s.heap) (op : Cross.Op) (l : Id) (n : String)
+    (kl : s.heap.kindOf l = some .layer) (al : s.heap.alive l) (hn : (l, n) ∉ announced s.heap op) :
+    (xstep s op).1.heap.findNamed l .glyph n = s.heap.findNamed l .glyph n := filing_xstep w op kl al hn
+
+/-- `synced`: the stored wiring — what each component observes, changed ONLY by the reaction of the components
+that observe the announcing layer and have the announced base glyph name (`rebind`: end, look the name up again,
+begin) and by begin / end of a component's own observation when it gets, loses or changes its place in a font
+or its base glyph name (`settle`) — equals what the tree says (`watchOf`) in every reachable state. -/
+theorem synced (ops : List Cross.Op) (c : Id) : (orun {} ops).watchAt c = watchOf (orun {} ops).st c :=
+  synced_run ops (s := {}) wired_empty synced_empty c
+
+/-- … hence the table of the stored registrations is the table of the tree, and the state it sits on is the
+state sections 7–9 are about. -/
+theorem stored_wiring_exact (ops : List Cross.Op) :
+    storedTable (orun {} ops) = crossTable (orun {} ops).st ∧ (orun {} ops).st = xrun {} ops :=
+  ⟨storedTable_eq (synced ops), orun_st ops {}⟩
+
+/-- `cross_links_exact` for the stored registrations of a reachable state: a component in the tree holds exactly
+the registrations on its layer and on the glyph object the layer files under its base glyph name. -/
+theorem cross_links_exact_stored (ops : List Cross.Op) (f ls l g c : Id)
+    (kf : (orun {} ops).st.heap.kindOf f = some .font) (hs : ls ∈ (orun {} ops).st.heap.kidsOf f)
+    (ks : (orun {} ops).st.heap.kindOf ls = some .layerSet) (hl : l ∈ (orun {} ops).st.heap.kidsOf ls)
+    (hg : g ∈ (orun {} ops).st.heap.kidsOf l) (kg : (orun {} ops).st.heap.kindOf g = some .glyph)
+    (hc : c ∈ (orun {} ops).st.heap.kidsOf g) (kc : (orun {} ops).st.heap.kindOf c = some .component) (r : XReg) :
+    (r ∈ storedTable (orun {} ops) ∧ r.observer = c) ↔
+      ∃ b, (orun {} ops).st.baseOf c = some b ∧
+        r ∈ compRows f c (Watch.of l ((orun {} ops).st.heap.findNamed l .glyph b)) := by
+  rw [(stored_wiring_exact ops).1]
+  have w : Wired (orun {} ops).st.heap := by rw [(stored_wiring_exact ops).2]; exact xwired_reachable ops
+  exact cross_links_exact (orun {} ops).st w f ls l g c kf hs ks hl hg kg hc kc r
+
+/-- `no_wiring_left` for the stored registrations: an object outside the fonts is observer or observable of none
+of them — every removal path has ended what it had to end. -/
+theorem no_wiring_left_stored (ops : List Cross.Op) (x : Id) (hx : Outside (orun {} ops).st.heap x) :
+    ∀ r ∈ storedTable (orun {} ops), r.observer ≠ x ∧ r.observable ≠ .node x := by
+  intro r hr
+  rw [(stored_wiring_exact ops).1] at hr
+  have w : Wired (orun {} ops).st.heap := by rw [(stored_wiring_exact ops).2]; exact xwired_reachable ops
+  have hm := outside_unmentioned w hx
+  exact ⟨fun e => hm (Or.inr ⟨r, hr, Or.inl e⟩), fun e => hm (Or.inr ⟨r, hr, Or.inr e⟩)⟩
+
+/-- the history of `xdemo` with the stored wiring -/
+def odemo : OState := orun {} [.base .newFont, .base (.newGlyph 2 "A"), .base (.new .contour), .base (.insert 4 5),
+  .base (.newGlyph 2 "C"), .newComp (some "A"), .base (.insert 6 7), .base (.touch 6 .image)]
+
+/-- established at the insertion: glyph object 4 and layer 2; ten stored rows -/
+example : odemo.watchAt 7 = some (.glyph 2 4) ∧ (storedTable odemo).length = 10 ∧ odemo.st.heap.alive 2 := by
+  refine ⟨by decide, by decide, ⟨_, rfl, Or.inr (by decide)⟩⟩
+/-- what `newGlyph 2 "A"` announces, and what it does not: the filing of "C" is untouched -/
+example : announced odemo.st.heap (.base (.newGlyph 2 "A")) = [(2, "A")] ∧
+    (xstep odemo.st (.base (.newGlyph 2 "A"))).1.heap.findNamed 2 .glyph "C" = some 6 := by decide
+/-- re-bound at the announcements: the base glyph replaced (new object 9), deleted, renamed away, renamed back -/
+example : (orun odemo [.base (.newGlyph 2 "A")]).watchAt 7 = some (.glyph 2 9) ∧
+    (orun odemo [.base (.delGlyph 2 "A")]).watchAt 7 = some (.layer 2) ∧
+    (orun odemo [.base (.renameGlyph 4 "Q")]).watchAt 7 = some (.layer 2) ∧
+    (orun odemo [.base (.renameGlyph 4 "Q"), .base (.renameGlyph 4 "A")]).watchAt 7 = some (.glyph 2 4) ∧
+    (orun odemo [.base (.renameGlyph 6 "Z")]).watchAt 7 = some (.glyph 2 4) := by decide
+/-- dropped at every removal, established again at the next insertion -/
+example : (orun odemo [.base (.remove 6 7)]).watchAt 7 = none ∧ (orun odemo [.decompose 6 7]).watchAt 7 = none ∧
+    (orun odemo [.base (.delGlyph 2 "C")]).watchAt 7 = none ∧ (orun odemo [.base (.clearAll 6)]).watchAt 7 = none ∧
+    (orun odemo [.base (.remove 6 7), .base (.insert 6 7)]).watchAt 7 = some (.glyph 2 4) ∧
+    (orun odemo [.setBase 7 (some "Q")]).watchAt 7 = some (.layer 2) ∧
+    (orun odemo [.setBase 7 none]).watchAt 7 = none := by decide
 
 end DefconModel.Props.C11
